@@ -99,6 +99,11 @@ def run(rep, tier, seed):
             rep.enable_known("D16")
     n = size(tier, 120, 2500)
     cases = [gen_case(seed, k, "interp") for k in range(n // 2)] + [gen_case(seed, k + 10 ** 6, "given") for k in range(n - n // 2)]
+    # loops that gain one small dyadic step per sweep (17-33 sweeps on 6-8 formulae): the fixpoint is far away, and every order
+    # has to reach it
+    for k in range(4):
+        cp = streams.gen_creep_program(seed, k)
+        cases.insert(0, {"kb": cp["kb"], "data": cp["data"], "seed": 1000 + k, "n_schedules": 2})
     recs = engine.run_cases("prop", "run_c07", cases, chunksize=2)
     for r, c in zip(recs, cases):
         r["prog"] = c
